@@ -292,3 +292,340 @@ impl Part for C05 {
         "generated supervision trees (2-7 actors, Send/thread-local/instant, some unlinked) with backlogs, handlers that await/drain/stop/fail/hang, 1-2 generated exits (stop/kill/drain/task abort) and concurrent clients issuing link/unlink/relink/drain/stop_children/late spawn_linked at generated steps; oracle = two-sided tree invariant and no-gain-while-shutting-down checked after every scheduler step + every actor linked beneath an exited actor makes no further progress and is Stopped at quiescence; non-trivial = an actor exited while it had children"
     }
 }
+
+// =====================================================================================
+// E2 / free-running parts: the supervision tree under real concurrency
+//
+// Detached cells (the real `ActorCell::new`), no actor tasks: controlled OS threads call the
+// public link / unlink and the real exit clean-up (`ActorLifecycleGuard::finish`, which runs
+// `terminate()` and publishes Stopped), preemptible at every `verif_point!` in supervision.rs,
+// `terminate`, `set_status` and the guard's clean-up.
+
+#[cfg(any())]
+pub mod e2part {
+    use std::collections::BTreeSet;
+    use std::sync::{Arc, Mutex};
+
+    use proptest::prelude::*;
+    use ractor::verif::{DetachedPorts, LifecycleHandle};
+    use ractor::{ActorCell, ActorStatus, SupervisionEvent};
+    use serde::{Deserialize, Serialize};
+
+    use crate::core::{viol, Violation};
+    use crate::e2::{run_threads, run_threads_free, E2Run, Sched, ThreadCtx};
+    use crate::gen;
+    use crate::props::c07::Dummy;
+    use crate::runner::*;
+
+    #[derive(Clone, Debug, PartialEq, Eq, Serialize, Deserialize)]
+    pub enum TOp {
+        Link { child: u8, sup: u8 },
+        Unlink { child: u8, sup: u8 },
+        /// the real exit clean-up of the actor
+        Exit(u8),
+    }
+
+    #[derive(Clone, Debug, Serialize, Deserialize)]
+    pub struct Case {
+        pub n: u8,
+        /// links made sequentially before the threads start
+        pub init: Vec<(u8, u8)>,
+        pub programs: Vec<Vec<TOp>>,
+        pub schedule: Vec<u8>,
+    }
+
+    pub struct World {
+        pub cells: Vec<ActorCell>,
+        pub ports: Vec<Mutex<DetachedPorts>>,
+    }
+
+    impl World {
+        fn new(n: usize) -> World {
+            let mut cells = vec![];
+            let mut ports = vec![];
+            for _ in 0..n {
+                let (c, p) = ractor::verif::detached_cell::<Dummy>(None).expect("cell");
+                ractor::verif::set_status(&c, ActorStatus::Running);
+                cells.push(c);
+                ports.push(Mutex::new(p));
+            }
+            World { cells, ports }
+        }
+        fn idx(&self, c: &ActorCell) -> Option<usize> {
+            self.cells.iter().position(|x| x.get_id() == c.get_id())
+        }
+        fn exec(&self, op: &TOp) {
+            match op {
+                TOp::Link { child, sup } => {
+                    if child != sup {
+                        self.cells[*child as usize].link(self.cells[*sup as usize].clone());
+                    }
+                }
+                TOp::Unlink { child, sup } => {
+                    if child != sup {
+                        self.cells[*child as usize].unlink(self.cells[*sup as usize].clone());
+                    }
+                }
+                TOp::Exit(a) => {
+                    let cell = self.cells[*a as usize].clone();
+                    if cell.get_status() >= ActorStatus::Stopping {
+                        return;
+                    }
+                    let mut h = LifecycleHandle::new(cell.clone());
+                    h.mark_running();
+                    h.finish(SupervisionEvent::ActorTerminated(cell, None, None));
+                }
+            }
+        }
+        fn cleanup(&self) {
+            for c in &self.cells {
+                ractor::verif::set_status(c, ActorStatus::Stopped);
+            }
+        }
+    }
+
+    fn exec(w: &World, _ctx: &ThreadCtx, _tid: usize, op: &TOp) {
+        w.exec(op)
+    }
+
+    pub fn strategy() -> BoxedStrategy<Case> {
+        (3u8..=5)
+            .prop_flat_map(|n| {
+                let op = prop_oneof![
+                    6 => (gen::idx(n), gen::idx(n)).prop_map(|(child, sup)| TOp::Link { child, sup }),
+                    2 => (gen::idx(n), gen::idx(n)).prop_map(|(child, sup)| TOp::Unlink { child, sup }),
+                    4 => gen::idx(n).prop_map(TOp::Exit),
+                ];
+                (Just(n), proptest::collection::vec((gen::idx(n), gen::idx(n)), 0..=3), proptest::collection::vec(proptest::collection::vec(op, 1..=3), 2..=4), gen::schedule(64))
+            })
+            .prop_map(|(n, init, mut programs, schedule)| {
+                let mut total = 0;
+                for p in programs.iter_mut() {
+                    let room = 8usize.saturating_sub(total);
+                    p.truncate(room.max(1).min(p.len()));
+                    total += p.len();
+                }
+                Case { n, init, programs, schedule }
+            })
+            .boxed()
+    }
+
+    fn judge(case: &Case, w: &World, run: &E2Run<()>) -> Result<(bool, Vec<String>), Violation> {
+        let n = case.n as usize;
+        let sup_of: Vec<Option<usize>> = w.cells.iter().map(|c| c.try_get_supervisor().and_then(|s| w.idx(&s))).collect();
+        let children_of: Vec<BTreeSet<usize>> = w.cells.iter().map(|c| c.get_children().iter().filter_map(|x| w.idx(x)).collect()).collect();
+        let exited: BTreeSet<usize> = (0..n).filter(|a| w.cells[*a].get_status() == ActorStatus::Stopped).collect();
+        let hist = || run.recs.iter().map(|r| format!("t{}:{:?}[{}..{}]", r.tid, case.programs[r.tid][r.idx], r.start, r.end)).collect::<Vec<_>>();
+        // two-sided consistency
+        for b in 0..n {
+            if let Some(a) = sup_of[b] {
+                if !children_of[a].contains(&b) {
+                    return Err(viol("C05/one-sided-link", format!("actor {b} names {a} as its supervisor but is not among {a}'s children {:?}; init {:?}; {:?}", children_of[a], case.init, hist())));
+                }
+            }
+            for ch in &children_of[b] {
+                if sup_of[*ch] != Some(b) {
+                    return Err(viol("C05/one-sided-link", format!("actor {b} lists {ch} as a child but {ch}'s supervisor is {:?}; init {:?}; {:?}", sup_of[*ch], case.init, hist())));
+                }
+            }
+        }
+        // a stopped actor has neither supervisor nor children
+        for a in &exited {
+            if sup_of[*a].is_some() || !children_of[*a].is_empty() {
+                return Err(viol("C05/stopped-actor-linked", format!("actor {a} exited but still has supervisor {:?} / children {:?}; init {:?}; {:?}", sup_of[*a], children_of[*a], case.init, hist())));
+            }
+        }
+        // killed-with-the-parent: a child whose only link was in place before its supervisor's exit began
+        // and that no other call names must have received the kill signal
+        let mut killed = vec![false; n];
+        for (i, p) in w.ports.iter().enumerate() {
+            let mut g = p.lock().unwrap();
+            while g.try_recv_signal().is_some() {
+                killed[i] = true;
+            }
+        }
+        let mut nontrivial = false;
+        for r in &run.recs {
+            if let TOp::Exit(a) = &case.programs[r.tid][r.idx] {
+                let a = *a as usize;
+                // children by the initial links that nobody touches during the run
+                for (ch, sp) in &case.init {
+                    let (ch, sp) = (*ch as usize, *sp as usize);
+                    if sp != a || ch == sp {
+                        continue;
+                    }
+                    // the last initial link of `ch` decides its supervisor
+                    let last = case.init.iter().rev().find(|(c, s)| *c as usize == ch && c != s).map(|x| x.1 as usize);
+                    if last != Some(a) {
+                        continue;
+                    }
+                    let touched = case.programs.iter().flatten().any(|op| match op {
+                        TOp::Link { child, sup } | TOp::Unlink { child, sup } => *child as usize == ch || (*sup as usize == ch && false),
+                        TOp::Exit(x) => *x as usize == ch,
+                    });
+                    // the supervisor itself must really have run its clean-up (not already stopping when called)
+                    if !touched && exited.contains(&a) && !killed[ch] && w.cells[ch].get_status() != ActorStatus::Stopped {
+                        return Err(viol("C05/child-survives-exit", format!("actor {ch} was linked under {a} before the run and nobody relinked it; {a} exited, {ch} was not killed; init {:?}; {:?}", case.init, hist())));
+                    }
+                }
+                // overlap with a link/unlink naming the same actor
+                for o in &run.recs {
+                    if o.tid != r.tid && o.start < r.end && r.start < o.end {
+                        if let TOp::Link { child, sup } | TOp::Unlink { child, sup } = &case.programs[o.tid][o.idx] {
+                            if *child as usize == a || *sup as usize == a {
+                                nontrivial = true;
+                            }
+                        }
+                    }
+                }
+            }
+        }
+        Ok((nontrivial && run.preemptions > 0, vec![]))
+    }
+
+    pub fn run_case(case: &Case, want_trace: bool, sched: Option<Sched>, spin: &[u32]) -> (Outcome, Vec<(usize, usize)>) {
+        let w = Arc::new(World::new(case.n as usize));
+        for (ch, sp) in &case.init {
+            if ch != sp {
+                w.cells[*ch as usize].link(w.cells[*sp as usize].clone());
+            }
+        }
+        let run = match sched {
+            Some(s) => run_threads(w.clone(), case.programs.clone(), s, exec),
+            None => run_threads_free(w.clone(), case.programs.clone(), spin.to_vec(), exec),
+        };
+        let r = if run.deadlock { Err(viol("C05/deadlock", "all remaining threads are blocked (deadlock verdict)")) } else { judge(case, &w, &run) };
+        w.cleanup();
+        let trace = if want_trace { run.recs.iter().map(|r| format!("thread {} op {} {:?} [{}..{}]", r.tid, r.idx, case.programs[r.tid][r.idx], r.start, r.end)).collect() } else { vec![] };
+        let log = run.choice_log.clone();
+        let o = match r {
+            Err(v) => Outcome { verdict: Verdict::Fail(v), nontrivial: false, labels: vec![], trace },
+            Ok((nt, labels)) => Outcome { verdict: Verdict::Pass, nontrivial: nt, labels, trace },
+        };
+        (o, log)
+    }
+
+    pub struct C05E2;
+    impl Part for C05E2 {
+        type Case = Case;
+        const PROP: &'static str = "C05";
+        const PART: &'static str = "e2";
+        fn cases(tier: Tier) -> u32 {
+            match tier {
+                Tier::Quick => 30_000,
+                Tier::Thorough => 1_000_000,
+            }
+        }
+        fn strategy(_tier: Tier) -> BoxedStrategy<Case> {
+            strategy()
+        }
+        fn run(case: &Case, want_trace: bool) -> Outcome {
+            run_case(case, want_trace, Some(Sched::Bytes(case.schedule.clone())), &[]).0
+        }
+        fn rule() -> &'static str {
+            "2-4 controlled OS threads issue <=8 link / unlink / exit (the real lifecycle clean-up: terminate + Stopped) calls over 3-5 detached cells with 0-3 initial links, preemptible at every verif_point! in supervision.rs, terminate, set_status and the guard; oracle when all threads finished: supervisor and children views agree for every pair, an exited actor has neither supervisor nor children, and a child linked before the run under an actor that exited (and named by no other call) received the kill signal; non-trivial = an exit overlaps a link/unlink naming the same actor with >=1 preemption"
+        }
+    }
+
+    #[derive(Clone, Debug, Serialize, Deserialize)]
+    pub struct XCase {
+        pub n: u8,
+        pub init: Vec<(u8, u8)>,
+        pub programs: Vec<Vec<TOp>>,
+        pub choices: Vec<usize>,
+        pub max_preempt: u32,
+    }
+
+    pub struct C05E2X;
+    impl Part for C05E2X {
+        type Case = XCase;
+        const PROP: &'static str = "C05";
+        const PART: &'static str = "e2-exhaustive";
+        const EXHAUSTIVE: bool = true;
+        fn cases(_tier: Tier) -> u32 {
+            0
+        }
+        fn strategy(_tier: Tier) -> BoxedStrategy<XCase> {
+            Just(XCase { n: 3, init: vec![], programs: vec![], choices: vec![], max_preempt: 0 }).boxed()
+        }
+        fn enumerate(tier: Tier, visit: &mut dyn FnMut(&XCase, Outcome) -> bool) {
+            let bound = if tier == Tier::Quick { 2 } else { 3 };
+            let l = |child, sup| TOp::Link { child, sup };
+            let u = |child, sup| TOp::Unlink { child, sup };
+            let progs: Vec<(Vec<(u8, u8)>, Vec<Vec<TOp>>)> = vec![
+                (vec![], vec![vec![l(1, 0)], vec![TOp::Exit(0)]]),
+                (vec![], vec![vec![l(1, 0)], vec![TOp::Exit(1)]]),
+                (vec![(1, 0)], vec![vec![u(1, 0)], vec![TOp::Exit(0)]]),
+                (vec![(1, 0)], vec![vec![l(1, 2)], vec![TOp::Exit(0)]]),
+                (vec![(1, 0), (2, 1)], vec![vec![TOp::Exit(0)], vec![TOp::Exit(1)]]),
+                (vec![], vec![vec![l(2, 1)], vec![l(1, 0)], vec![TOp::Exit(0)]]),
+                (vec![(1, 0)], vec![vec![l(1, 2), l(1, 0)], vec![TOp::Exit(2)]]),
+            ];
+            for (init, programs) in progs {
+                let case = Case { n: 3, init: init.clone(), programs: programs.clone(), schedule: vec![] };
+                let (_n, complete) = crate::e2::enumerate_schedules(2_000_000, |choices| {
+                    let (mut o, log) = run_case(&case, false, Some(Sched::Explicit(choices.clone(), Some(bound))), &[]);
+                    o.nontrivial = log.iter().any(|c| c.0 != 0);
+                    let xc = XCase { n: 3, init: init.clone(), programs: programs.clone(), choices: log.iter().map(|c| c.0).collect(), max_preempt: bound };
+                    if !visit(&xc, o) {
+                        return vec![];
+                    }
+                    log
+                });
+                if !complete {
+                    return;
+                }
+            }
+        }
+        fn run(case: &XCase, want_trace: bool) -> Outcome {
+            let c = Case { n: case.n, init: case.init.clone(), programs: case.programs.clone(), schedule: vec![] };
+            let mut o = run_case(&c, want_trace, Some(Sched::Explicit(case.choices.clone(), Some(case.max_preempt))), &[]).0;
+            o.nontrivial = case.choices.iter().any(|c| *c != 0);
+            o
+        }
+        fn rule() -> &'static str {
+            "bounded exhaustive generation: every schedule with at most 2 (quick) / 3 (thorough) preemptions of seven small programs over three cells ({link|exit sup}, {link|exit child}, {unlink|exit}, {relink|exit old sup}, {exit|exit} on a chain, {link|link|exit} building a chain, {relink;relink back|exit}); same oracle as part e2"
+        }
+    }
+
+    #[derive(Clone, Debug, Serialize, Deserialize)]
+    pub struct FreeCase {
+        pub case: Case,
+        pub spin: Vec<u32>,
+        pub rounds: u16,
+    }
+
+    pub struct C05Free;
+    impl Part for C05Free {
+        type Case = FreeCase;
+        const PROP: &'static str = "C05";
+        const PART: &'static str = "free";
+        const DETERMINISTIC: bool = false;
+        fn cases(tier: Tier) -> u32 {
+            match tier {
+                Tier::Quick => 1_600,
+                Tier::Thorough => 60_000,
+            }
+        }
+        fn strategy(_tier: Tier) -> BoxedStrategy<FreeCase> {
+            (strategy(), proptest::collection::vec(0u32..800, 4)).prop_map(|(case, spin)| FreeCase { case, spin, rounds: 15 }).boxed()
+        }
+        fn run(fc: &FreeCase, want_trace: bool) -> Outcome {
+            let mut nontrivial = false;
+            for _ in 0..fc.rounds {
+                let (o, _) = run_case(&fc.case, want_trace, None, &fc.spin);
+                match o.verdict {
+                    Verdict::Fail(mut v) => {
+                        v.msg = format!("(free-running threads; observed history) {}", v.msg);
+                        return Outcome { verdict: Verdict::Fail(v), nontrivial: false, labels: vec![], trace: o.trace };
+                    }
+                    _ => nontrivial |= o.nontrivial,
+                }
+            }
+            Outcome::pass(nontrivial || fc.case.programs.len() >= 2, vec![])
+        }
+        fn rule() -> &'static str {
+            "the e2 generator on uncontrolled OS threads released from a barrier with generated busy-wait offsets, 15 rounds per case; same oracle (sound for every interleaving: it only inspects the state after all threads finished); non-trivial = at least two threads"
+        }
+    }
+}
